@@ -26,6 +26,7 @@ def run(chk, scratch):
                             ("ProcTree_killchild_live.cfg", "StopReturns", "kill-child (must violate StopReturns)"),
                             ("ProcTree_nodelay_live.cfg", "StopReturns", "kill-tree without bounded wait (must violate StopReturns)"),
                             ("ProcTree_nogroup.cfg", "AfterReturnNoSurvivor", "no process group for a command run through a translator (must violate AfterReturnNoSurvivor)"),
+                            ("ProcTree_termwait.cfg", "StopReturns", "the kill waits for the direct child to die of SIGTERM (must violate StopReturns)"),
                             ("ProcTree_ascoded.cfg", "AfterReturnNoSurvivor", "as coded: nobody to signal once Execute has reaped a child that exited by itself (must violate AfterReturnNoSurvivor)")):
         r = vlib.run_tlc(scratch, [SPEC], "ProcTree", cfg, workers=4, timeout=600, fast=True)
         vlib.tlc_must_pass(r, cfg)
@@ -41,9 +42,12 @@ def run(chk, scratch):
     scen = r2.behaviours
     chk.cov["model_scenarios"] = len(scen)
     rnd = random.Random(chk.seed)
-    hard = [s for s in scen if any(s["holds"]) or s["rootExits"] or not all(s["inGroup"])]
+    hard = [s for s in scen if any(s["holds"]) or s["rootExits"] or not all(s["inGroup"]) or s["rootIgnTerm"]]
     n_hard, n_any = (900, 300) if thorough else (110, 20)
     pick = rnd.sample(hard, n_hard) + rnd.sample(scen, n_any)
+    if not any(s["rootIgnTerm"] for s in pick):
+        pick += rnd.sample([s for s in scen if s["rootIgnTerm"]], 12)
+    chk.cov["trees_whose_direct_child_ignores_sigterm"] = sum(1 for s in pick if s["rootIgnTerm"])
     chk.cov["trees_run_through_a_command_translator"] = sum(1 for s in pick if s["launcher"] == "translated")
     chk.sample({"scenario": pick[0]})
     inp = os.path.join(scratch, "c05-scen.ndjson")
